@@ -51,17 +51,17 @@ def publicMemoryProduct (pi : PublicInput) (z alpha : Felt) : Felt × Felt :=
   let (cp, cl) := continuousPagesProduct pi.continuousPageHeaders
   (pageProduct z alpha pi.mainPage * cp, Felt.ofNat pi.mainPage.length + cl)
 
-/-- `get_public_memory_product_ratio`.  Panics: the `assert!`, and `field_div` by zero
-    (lambdaworks `inv(0)` is `Err`, unwrapped). -/
+/-- `get_public_memory_product_ratio` (`Option<Felt>`): `None` (modelled as `err`) when the public
+    memory does not fit the column or a denominator is zero. -/
 def publicMemoryProductRatio (pi : PublicInput) (z alpha size : Felt) : Outcome Felt :=
   let (prod, total) := publicMemoryProduct pi z alpha
   let numerator := Felt.pow z size.val
   let padded := z - (pi.paddingAddr + alpha * pi.paddingValue)
-  if ¬ (total.val ≤ size.val) then .panic "public_memory.rs:get_public_memory_product_ratio:assert"
+  if ¬ (total.val ≤ size.val) then .err "None:total_length"
   else
     let denomPad := Felt.pow padded (size - total).val
-    if prod = 0 then .panic "public_memory.rs:get_public_memory_product_ratio:div0"
-    else if denomPad = 0 then .panic "public_memory.rs:get_public_memory_product_ratio:div1"
+    if prod = 0 then .err "None:pages_product"
+    else if denomPad = 0 then .err "None:denominator_pad"
     else .ok (numerator * Felt.inv prod * Felt.inv denomPad)
 
 /-- Pedersen chain over the main page: `h := H(H(h, addr), value)` per cell, then `H(h, 2·len)`. -/
